@@ -269,6 +269,7 @@ def impl_builtin(case):
         score = _mk_score(case["score"])
         det = SBS(score, threshold_scale=scale, level=case["level"], min_segment_length=m,
                   max_interval_length=case["mx"], growth_factor=case["g"])
+        det = core.reconfigure(det, case, "change_score")
         # ndarray or DataFrame; fitted on the data, on a series of another length, or on an object overwritten in place
         # afterwards; the fitted detector may have been used on other data with the same index before
         data, nfit = core.fit_for(det, case, X)
